@@ -44,17 +44,26 @@ def run_cases(
         c.setdefault("id", f"case{i}")
     nproc = max(1, min(nproc, len(cases)))
     work = Path(tempfile.mkdtemp(prefix="pool_", dir=scratch_base()))
-    batches = [cases[i::nproc] for i in range(nproc)]
+    # cases may pin the interpreter hash seed of the process that runs them (C01): one batch set per hash seed
+    groups: Dict[Optional[str], List[Dict[str, Any]]] = {}
+    for c in cases:
+        groups.setdefault(str(c["hashseed"]) if "hashseed" in c else hashseed, []).append(c)
+    batches_hs: List[Tuple[List[Dict[str, Any]], Optional[str]]] = []
+    for hs, cs in groups.items():
+        k = max(1, min(len(cs), round(nproc * len(cs) / len(cases)) or 1))
+        for i in range(k):
+            if cs[i::k]:
+                batches_hs.append((cs[i::k], hs))
     procs = []
     try:
-        for i, b in enumerate(batches):
+        for i, (b, hs) in enumerate(batches_hs):
             bf, of = work / f"batch{i}.json", work / f"out{i}.jsonl"
             json.dump(b, open(bf, "w"))
             cmd = [PY, "-X", "faulthandler"]
             if warn_as_error:
                 cmd += ["-W", "error::RuntimeWarning"]
             cmd += ["-m", "hivemon.drive.worker", str(bf), str(of)]
-            p = subprocess.Popen(cmd, env=worker_env(hashseed), stdout=subprocess.DEVNULL, stderr=open(work / f"err{i}.txt", "w"), cwd="/")
+            p = subprocess.Popen(cmd, env=worker_env(hs), stdout=subprocess.DEVNULL, stderr=open(work / f"err{i}.txt", "w"), cwd="/")
             procs.append((p, of, b, work / f"err{i}.txt"))
         deadline = time.time() + timeout_s
         problems: List[str] = []
